@@ -146,6 +146,8 @@ fn regex_pattern(r: &mut XRng) -> String {
         4 => format!("|https://*{}^{}", word(r), word(r)),
         5 => format!("/{}[0-9a-z]*\\/{}/", word(r), word(r)),
         6 => format!("{}*{}*{}", word(r), word(r), word(r)),
+        // a remainder that can match the EMPTY text after the host (`https://host` without a path)
+        7 if r.chance(1, 2) => format!("||{}{}", r.pick(HOSTS), r.pick(&["^*", "*^", "^*^"])),
         _ => format!("-{}^*{}.", word(r), word(r)),
     }
 }
@@ -161,6 +163,17 @@ fn plain_pattern(r: &mut XRng) -> String {
 
 fn gen_url(r: &mut XRng) -> String {
     let mut s = format!("{}://{}", r.pick(&["https", "https", "http", "wss"]), r.pick(HOSTS));
+    // a URL that ends with its host (nothing after the authority)
+    if r.chance(1, 12) {
+        return s;
+    }
+    // a very long URL: filler of 2-5 KiB in front of the words a rule may look for (a matcher that
+    // looks at a bounded prefix only would miss them)
+    if r.chance(1, 14) {
+        s.push_str("/l");
+        let n = r.pick(&[2040usize, 2100, 4200, 5000]);
+        for _ in 0..n / 10 { s.push_str("0123456789"); }
+    }
     let n = r.range(1, 4);
     for _ in 0..n {
         s.push_str(r.pick(&["/", "/", "/", "-", ".", "_", "/-"]));
